@@ -54,6 +54,7 @@ def extract_d_mat(M: Model, c: ClassInfo) -> KernelForm:
         raise Unsupported("kernel is not compiled with the dissimilarity signature")
     env: Dict[str, object] = {}
     comps: Dict[str, str] = {}
+    derived: Dict[str, str] = {}
     # closure captures: straight-line assignments before the nested def
     for s in cd.node.body:
         if isinstance(s, ast.Assign) and len(s.targets) == 1 and isinstance(s.targets[0], ast.Name):
@@ -62,8 +63,13 @@ def extract_d_mat(M: Model, c: ClassInfo) -> KernelForm:
             if isinstance(v, ast.Attribute) and isinstance(v.value, ast.Name) and v.value.id == sn:
                 if v.attr == "_matrix":
                     comps[nm] = "M"
-                else:
+                elif v.attr in FIELD_SYMBOL:
                     env[nm] = _field_rat(v.attr)
+                else:
+                    # another field: a scalar symbol unless the kernel subscripts it - then it is a table whose definition in the
+                    # constructor says what it holds (e.g. the matrix pre-scaled by the delta_empty the constructor was given)
+                    env[nm] = _field_rat(v.attr)
+                    derived[nm] = v.attr
             elif isinstance(v, ast.Attribute) and v.attr == "d_mat" and isinstance(v.value, ast.Attribute) \
                     and isinstance(v.value.value, ast.Name) and v.value.value.id == sn:
                 comps[nm] = v.value.attr            # component kernel: pos = self.positional_dissim.d_mat
@@ -85,6 +91,11 @@ def extract_d_mat(M: Model, c: ClassInfo) -> KernelForm:
         # matrix[i, j]
         if isinstance(e.value, ast.Name) and comps.get(e.value.id) == "M" and isinstance(e.slice, ast.Tuple) and len(e.slice.elts) == 2:
             return A.mk_app("M", [ex.ev(x) for x in e.slice.elts], symmetric=True)
+        # derived_table[i, j]  with  self.derived_table = <expression over the constructor's matrix and delta_empty>
+        if isinstance(e.value, ast.Name) and e.value.id in derived and isinstance(e.slice, ast.Tuple) and len(e.slice.elts) == 2:
+            scale = _derived_table_scale(M, c, derived[e.value.id])
+            if scale is not None:
+                return A.mk_app("M", [ex.ev(x) for x in e.slice.elts], symmetric=True) * scale
         return None
 
     def call(ex: Extractor, e: ast.Call):
@@ -97,6 +108,46 @@ def extract_d_mat(M: Model, c: ClassInfo) -> KernelForm:
     ex = Extractor(env, subscript=sub, call=call)
     form = A.single_return_expr(k.node, ex)
     return KernelForm(c, k, form, ex, "d_mat")
+
+
+def delta_reassigned_after_construction(M: Model) -> bool:
+    """does any function other than a constructor writing its own object store `.delta_empty` of a dissimilarity?  (then the value a
+    constructor saw and the value read later are different quantities)"""
+    for f in M.functions.values():
+        if isinstance(f.node, ast.Lambda):
+            continue
+        for n in walk_no_nested(f.node):
+            if isinstance(n, ast.Attribute) and n.attr == "delta_empty" and isinstance(n.ctx, ast.Store):
+                own = f.name == "__init__" and isinstance(n.value, ast.Name) and n.value.id == f.self_name
+                if not own:
+                    return True
+    return False
+
+
+def _derived_table_scale(M: Model, c: ClassInfo, field: str):
+    """for `self.<field> = matrix * g(delta_empty)` in a constructor of the class: the factor g as a Rat, over the symbol of the delta_empty the
+    CONSTRUCTOR received (distinct from the current self.delta_empty when that attribute is reassigned elsewhere in the package)"""
+    for k in M.mro(c):
+        init = k.methods.get("__init__")
+        if init is None:
+            continue
+        defs = [s for s in walk_no_nested(init.node) if isinstance(s, ast.Assign) and len(s.targets) == 1 and norm(s.targets[0]) == f"{init.self_name}.{field}"]
+        if len(defs) != 1:
+            continue
+        delta_ctor = Rat.var("Δ₀") if delta_reassigned_after_construction(M) else Rat.var("Δ")
+        env = {"matrix": Rat.var("@M"), "delta_empty": delta_ctor}
+        try:
+            r = Extractor(env, attribute=lambda ex, e: (Rat.var("@M") if norm(e) == f"{init.self_name}._matrix" else
+                                                          (delta_ctor if norm(e) == f"{init.self_name}.delta_empty" else None))).ev(defs[0].value)
+        except Unsupported:
+            return None
+        # r must be  @M * factor
+        one = A.subst(r, lambda nm: Rat.const(1) if nm == "@M" else None)
+        zero = A.subst(r, lambda nm: Rat.const(0) if nm == "@M" else None)
+        if zero.is_zero() and r == Rat.var("@M") * one:
+            return one
+        return None
+    return None
 
 
 def extract_d(M: Model, c: ClassInfo) -> KernelForm:
